@@ -85,6 +85,18 @@ def strip_sentinel(s: str) -> str:
     return s
 
 
+def fold_int(fold: Folder, e: ast.AST) -> Optional[int]:
+    if isinstance(e, ast.Constant) and isinstance(e.value, int):
+        return e.value
+    if isinstance(e, ast.Name):
+        try:
+            v = fold.global_(e.id)
+            return v if isinstance(v, int) else None
+        except Exception:   # noqa: BLE001
+            return None
+    return None
+
+
 def member_props_for(fold: Folder, mod: Any, enum_name: str) -> Dict[str, Any]:
     """attribute/property evaluators for members of an Enum whose values are tuples unpacked by __init__"""
     c = mod.cls(enum_name)
@@ -265,8 +277,24 @@ def run(ctx: Any, prog: Program) -> None:
                 ctx.check('C11.L6', guarded, bsp, c, f'`{ast.unparse(c)[:70]}` packs `{src}` into a {width}-byte field without a raising length check: struct silently truncates longer values',
                           func=f'BSP._lmp_write_{v}', text=f'{v}: {width}s from {src}')
     tw = ms['_lmp_write_textures']
-    ok = any(isinstance(g, ast.If) and 'len(tex) >= 128' in ast.unparse(g.test) and any(isinstance(x, ast.Raise) for x in g.body) for g in walk_no_nested(tw))
-    ctx.shape('C11.L6', ok, bsp, tw, 'texture names longer than the 128-byte table entry must be rejected', func='BSP._lmp_write_textures', text='texture name length check')
+    # the reader looks for the terminator within 128 bytes of the offset: name + NUL must fit, i.e. len(name) <= 127
+    rd_tex = ms['_lmp_read_textures']
+    rlim = [fold_int(fold, a) for c in ast.walk(rd_tex) if isinstance(c, ast.Call) and isinstance(c.func, ast.Attribute) and c.func.attr == 'index' and len(c.args) == 3
+            for a in [c.args[2].right if isinstance(c.args[2], ast.BinOp) else c.args[2]]]
+    guards_t = [g for g in walk_no_nested(tw) if isinstance(g, ast.If) and any(isinstance(x, ast.Raise) for x in g.body) and isinstance(g.test, ast.Compare) and ast.unparse(g.test.left) == 'len(tex)']
+    if not guards_t:
+        ctx.check('C11.L6', False, bsp, tw, 'texture names are written without any length check: the reader only searches 128 bytes for the terminator', func='BSP._lmp_write_textures', text='texture name length check')
+    elif len(guards_t) != 1 or len(rlim) != 1 or rlim[0] is None or fold_int(fold, guards_t[0].test.comparators[0]) is None:
+        ctx.shape('C11.L6', False, bsp, tw, 'texture name limit not recognised', func='BSP._lmp_write_textures', text='texture name length check')
+    else:
+        lim = fold_int(fold, guards_t[0].test.comparators[0])
+        op = guards_t[0].test.ops[0]
+        max_ok = lim - 1 if isinstance(op, ast.GtE) else (lim if isinstance(op, ast.Gt) else None)
+        if max_ok is None:
+            ctx.shape('C11.L6', False, bsp, guards_t[0], 'comparison operator of the limit not recognised', func='BSP._lmp_write_textures', text='texture name length check')
+        else:
+            ctx.check('C11.L6', max_ok + 1 <= rlim[0], bsp, guards_t[0], f'names of up to {max_ok} characters are accepted (`{ast.unparse(guards_t[0].test)}`), i.e. {max_ok + 1} bytes with the terminator, but the reader searches only '
+                      f'{rlim[0]} bytes for it', func='BSP._lmp_write_textures', text='texture name length check')
     # ---- L11 -------------------------------------------------------------------------------------------------
     n_pool = string_pool_check(ctx, 'C11.L11', bsp, tw, 'BSP._lmp_write_textures', b'\0')
     if n_pool == 0:
